@@ -354,7 +354,8 @@ def explore(hkey, params=None, *, nproc=None, max_paths=2_000_000, wall_s=1500, 
                 else:
                     still.append(a)
             inflight = still
-            stop = res.fault or res.inconclusive or len(res.violations) >= 40
+            nsig = len({(v.get("concrete") or {}).get("signature") or v["signature"] for v in res.violations})
+            stop = res.fault or res.inconclusive or nsig >= 8 or len(res.violations) >= 300
             if res.paths + res.pruned > max_paths:
                 res.inconclusive = "path budget %d exhausted" % max_paths
                 stop = True
